@@ -108,9 +108,11 @@ func (iter *FastIterator) Next() {
 		iter.fastIterator.Next()
 	}
 
-	if iter.err == nil {
-		iter.err = iter.fastIterator.Error()
+	if iter.err != nil {
+		iter.valid = false
+		return
 	}
+	iter.err = iter.fastIterator.Error()
 
 	iter.valid = iter.valid && iter.fastIterator.Valid()
 	if iter.valid {
